@@ -210,6 +210,10 @@ def case_mass(ctx, family, kind="Field"):
                 for i in range(d):
                     exp[d * cells[c, a] + i, d * cells[c, b] + i] = exp[d * cells[c, a] + i, d * cells[c, b] + i] + rho * t
     ctx.equal("mass_is_rho_h_h_dV", M, exp, tol=1e-12)
+    # the density given as keyword of the assembly call replaces the body's own one
+    rho2 = ctx.var("rho2", 0.1, 5)
+    M2 = dense(ctx, body.assemble.mass(density=rho2))
+    ctx.equal("density_keyword_replaces_the_bodys_density", M2 * rho, M * rho2, tol=1e-12)
     V = float(np.asarray(dV, dtype=float).sum())
     for i in range(d):
         e = np.zeros(n, dtype=int)
